@@ -427,84 +427,100 @@ func (w *World) setRelationsBatch(batch *Batch, relations []relationID, fn func(
 	hasObserver := w.storage.observers.HasObservers(OnAddRelations) || w.storage.observers.HasObservers(OnRemoveRelations)
 
 	tables := w.storage.getBatchTables(batch)
-	lengths := w.storage.slices.ints
-	var totalEntities uint32 = 0
+
+	// Collect the tables to move, and find or create their target tables.
+	moves := make([]relationsMove, 0, len(tables))
 	for _, tableID := range tables {
 		table := &w.storage.tables[tableID]
-		lengths = append(lengths, uint32(table.Len()))
-		totalEntities += uint32(table.Len())
-	}
-
-	for i, tableID := range tables {
-		tableLen := lengths[i]
+		tableLen := uint32(table.Len())
 		if tableLen == 0 {
 			continue
 		}
-		table := &w.storage.tables[tableID]
-		w.setRelationsTable(table, int(tableLen), relations, fn, hasObserver)
+		move, changed := w.prepareRelationsMove(table, tableLen, relations, hasObserver)
+		if !changed {
+			continue
+		}
+		moves = append(moves, move)
 	}
-
-	w.storage.slices.ints = lengths[:0]
 	w.storage.slices.tables = tables[:0]
 
+	// All removal events are emitted before the entire batch.
+	if w.storage.observers.HasObservers(OnRemoveRelations) {
+		for i := range moves {
+			move := &moves[i]
+			oldTable := &w.storage.tables[move.oldTable]
+			newMask := &w.storage.archetypes[w.storage.tables[move.newTable].archetype].mask
+			earlyOut := true
+			for j := uintptr(0); j < uintptr(move.len); j++ {
+				if !w.storage.observers.FireSetRelations(OnRemoveRelations, oldTable.GetEntity(j), &move.changeMask, newMask, earlyOut) {
+					break
+				}
+				earlyOut = false
+			}
+		}
+	}
+
+	for i := range moves {
+		move := &moves[i]
+		oldTable := &w.storage.tables[move.oldTable]
+		newTable := &w.storage.tables[move.newTable]
+		move.start = uint32(newTable.Len())
+		w.storage.moveEntities(oldTable, newTable, move.len)
+		if fn != nil {
+			fn(move.newTable, int(move.start), int(move.len))
+		}
+	}
+
 	w.storage.registerTargets(relations)
+
+	// All addition events are emitted after the entire batch.
+	if w.storage.observers.HasObservers(OnAddRelations) {
+		for i := range moves {
+			move := &moves[i]
+			newTable := &w.storage.tables[move.newTable]
+			newMask := &w.storage.archetypes[newTable.archetype].mask
+			earlyOut := true
+			for j := uintptr(move.start); j < uintptr(move.start+move.len); j++ {
+				if !w.storage.observers.FireSetRelations(OnAddRelations, newTable.GetEntity(j), &move.changeMask, newMask, earlyOut) {
+					break
+				}
+				earlyOut = false
+			}
+		}
+	}
 
 	w.unlock(lock)
 }
 
-// setRelationsTable batch-changes entity relations for a single table.
-func (w *World) setRelationsTable(oldTable *table, oldLen int, relations []relationID, fn func(table tableID, start, len int), hasObserver bool) {
-	var changeMask bitMask
+// relationsMove is a helper struct for collecting table moves in setRelationsBatch.
+type relationsMove struct {
+	changeMask bitMask
+	oldTable   tableID
+	newTable   tableID
+	start      uint32
+	len        uint32
+}
+
+// prepareRelationsMove finds or creates the target table for batch-changing entity relations of a single table.
+// Returns false if no relation target changes for the table.
+func (w *World) prepareRelationsMove(oldTable *table, oldLen uint32, relations []relationID, hasObserver bool) (relationsMove, bool) {
+	move := relationsMove{oldTable: oldTable.id, len: oldLen}
 	var maskPointer *bitMask
 	if hasObserver {
-		maskPointer = &changeMask
+		maskPointer = &move.changeMask
 	}
 	newRelations, changed := w.storage.getExchangeTargets(oldTable, relations, maskPointer)
-
 	if !changed {
-		return
+		return move, false
 	}
 
 	oldArch := &w.storage.archetypes[oldTable.archetype]
 	newTable, ok := oldArch.GetTable(&w.storage, newRelations)
 	if !ok {
 		newTable = w.storage.createTable(oldArch, newRelations)
-		// Get the old table again, as pointers may have changed.
-		oldTable = &w.storage.tables[oldTable.id]
 	}
-
-	// TODO: move this before the entire batch?
-	if w.storage.observers.HasObservers(OnRemoveRelations) {
-		newMask := &w.storage.archetypes[newTable.archetype].mask
-		len := uintptr(oldTable.len)
-		earlyOut := true
-		for i := uintptr(0); i < len; i++ {
-			if !w.storage.observers.FireSetRelations(OnRemoveRelations, oldTable.GetEntity(i), &changeMask, newMask, earlyOut) {
-				break
-			}
-			earlyOut = false
-		}
-	}
-
-	startIdx := newTable.Len()
-	w.storage.moveEntities(oldTable, newTable, uint32(oldLen))
-
-	if fn != nil {
-		fn(newTable.id, startIdx, oldLen)
-	}
-
-	// TODO: move this after the entire batch?
-	if w.storage.observers.HasObservers(OnAddRelations) {
-		newMask := &w.storage.archetypes[newTable.archetype].mask
-		earlyOut := true
-		for i := range oldLen {
-			index := uintptr(startIdx + i)
-			if !w.storage.observers.FireSetRelations(OnAddRelations, newTable.GetEntity(index), &changeMask, newMask, earlyOut) {
-				break
-			}
-			earlyOut = false
-		}
-	}
+	move.newTable = newTable.id
+	return move, true
 }
 
 // componentID returns the component ID for a runtime component type.
